@@ -93,6 +93,17 @@ class Rewriter:
                 # expression position (match arm etc.)
                 self.t = self.t[:a] + "()" + self.t[b:]
             n += 1
+        # R1s (additive): a span constructor in expression position, `tracing::debug_span!(..)` -> `tracing::Span::none()`
+        # (tracing's own disabled span).  Same assumption T1: a span carries no program state; the macro's
+        # arguments are field reads / Display values without side effects.
+        while True:
+            m = mask(self.t)
+            mm = re.search(r"(?<![A-Za-z0-9_:])(?:tracing::)?(?:trace|debug|info|warn|error)_span!\s*\(", m)
+            if not mm:
+                break
+            pc = match_close(m, mm.end() - 1)
+            self.t = self.t[:mm.start()] + "tracing::Span::none()" + self.t[pc + 1:]
+            self.note("R1s")
         # span guards:  let _entered = span.enter();  /  let _guard = ...span...;
         m = mask(self.t)
         for mm in reversed(list(re.finditer(r"(?m)^[ \t]*let\s+_(?:entered|guard|enter|span)\s*=[^;]*;\s*\n", m))):
@@ -276,12 +287,54 @@ class Rewriter:
         self.t = t
         self.note("R5", n)
 
+    # R6n / R6r / R6s (unit `serving`; additive: each fires only on text that R6 refused before) ---------
+    def r6n_binding(self, t):
+        """R6n: the struct projection is bound to a name other than `this` (`let mut me = self.as_mut().project();`):
+        every free occurrence of that name is renamed to `this`, then R6 applies unchanged.  Refused (text left
+        alone, R6 raises as before) when `this` already occurs in the fn."""
+        m = mask(t)
+        mm = re.search(r"(?m)^[ \t]*let\s+(?:mut\s+)?([A-Za-z_][A-Za-z0-9_]*)\s*=\s*self\.(?:as_mut\(\)\.)?project\(\)\s*;", m)
+        if not mm or mm.group(1) == "this" or re.search(r"\bthis\b", m):
+            return t
+        name = mm.group(1)
+        hits = [h.start() for h in re.finditer(r"(?<![A-Za-z0-9_.])%s\b(?!\s*:[^:])" % re.escape(name), m)]
+        for a in reversed(hits):
+            t = t[:a] + "this" + t[a + len(name):]
+        self.note("R6n", len(hits))
+        return t
+
+    def r6x_post(self, t):
+        """R6r: `(&mut self.f).project_replace(v)` -> `std::mem::replace((&mut self.f), v)` and the owned
+        projection's paths `XOwn::V` -> `X::V` (from `project_replace = XOwn` in the file).  pin_project's
+        project_replace moves `v` in, drops the `#[pin]` fields of the old value in place and returns its other
+        fields by value (pinned ones as PhantomData); `mem::replace` returns the whole old value.  The two agree
+        as long as the pattern matched against the result binds no `#[pin]` field - checked here, else refused -
+        and up to *when* the pinned fields are dropped (end of the `if let` instead of inside the call).
+        R6s: in a fn that projects `self` (so `self: Pin<&mut Self>`), `self.as_mut().m(..)` is the Pin reborrow
+        -> `(&mut *self).m(..)`."""
+        own = getattr(self, "proj_own", {})
+        nr = 0
+        t, k = re.subn(r"(\(&mut self\.[A-Za-z_][A-Za-z0-9_]*\))\s*\.project_replace\s*\(", r"std::mem::replace(\1, ", t)
+        nr += k
+        if k:
+            for pown, (enum, pinned) in own.items():
+                for pm in re.finditer(r"\b%s::[A-Za-z_][A-Za-z0-9_]*\s*(\{[^{}]*\}|\()" % re.escape(pown), t):
+                    body = pm.group(1)
+                    if body == "(" or (set(re.findall(r"[A-Za-z_][A-Za-z0-9_]*", body)) & set(pinned)):
+                        raise Unsupported("unsupported construct: project_replace result pattern binds a #[pin] field (%s) in %s" % (pm.group(0), self.what))
+                t, k2 = re.subn(r"\b%s::" % re.escape(pown), enum + "::", t)
+                nr += k2
+        self.note("R6r", nr)
+        t, k = re.subn(r"\bself\.as_mut\(\)(?=\s*\.(?!project\b|project_replace\b|project_ref\b|set\b)[A-Za-z_][A-Za-z0-9_]*\s*\()", "(&mut *self)", t)
+        self.note("R6s", k)
+        return t
+
     def r6_struct_projection(self, pinned_fields):
         """`let [mut] this = self.project();` deleted; `*this.f` -> `self.f`;
         `this.f` -> `(&mut self.f)`; `self.project().f` -> `(&mut self.f)`;
         `.as_mut()` directly on a projected field is the identity reborrow."""
         n = 0
-        t = self.t
+        t = self.r6n_binding(self.t)
         t, k = re.subn(r"(?m)^[ \t]*let\s+(?:mut\s+)?this\s*=\s*self\.project\(\)\s*;\s*\n", "", t)
         n += k
         if k == 0 and not re.search(r"self\.project\(\)", t) and not re.search(r"self\.as_mut\(\)\s*\.(?:project|set)\(", t):
@@ -300,7 +353,7 @@ class Rewriter:
         n += k
         t, k = re.subn(r"\bthis\s*\.([A-Za-z_][A-Za-z0-9_]*)", r"(&mut self.\1)", t)
         n += k
-        t, k = re.subn(r"\bself\.(?:as_mut\(\)\.)?project\(\)\.([A-Za-z_][A-Za-z0-9_]*)", r"(&mut self.\1)", t)
+        t, k = re.subn(r"\bself\s*\.(?:as_mut\(\)\s*\.)?\s*project\(\)\s*\.([A-Za-z_][A-Za-z0-9_]*)", r"(&mut self.\1)", t)
         n += k
         # R6 (nested struct projection, additive): a projected field that is itself a pin_project *struct* is
         # projected again, `(&mut self.f).project().g` -> `(&mut self.f.g)`
@@ -329,6 +382,7 @@ class Rewriter:
             lhs = "*self" if mm.group(1) is None else "self." + mm.group(1)
             t = t[:mm.start()] + lhs + " = " + t[mm.end():pc] + t[pc + 1:]
             ne += 1
+        t = self.r6x_post(t)
         bad = re.search(r"\bthis\b", mask(t)) or re.search(r"\.project(?:_replace|_ref)?\(", mask(t))
         if bad:
             snippet = re.sub(r"\s+", " ", t[max(0, bad.start() - 40):bad.end() + 40])
@@ -371,6 +425,9 @@ class Rewriter:
         self.r12_phantom_fn()
         self.r13_ctor_as_fn()
         self.r14_extern_root()
+        if getattr(self, "matchrw", ""):  # opt-in (`:: matchrw=orsplit,guardelse`): R16 / R17, see rewrites_match.py
+            import rewrites_match
+            rewrites_match.apply(self, self.matchrw, Unsupported)
         return self.t
 
     # R14 ------------------------------------------------------------
@@ -1017,7 +1074,9 @@ def emit_fn(u: Unit, fpath, impl_pat, name, spec: FnSpec, reach: bool, mutate):
     rw = Rewriter(text, what)
     rw.unpinned = set(x.strip() for x in spec.opts.get("unpinned", "").split(",") if x.strip())
     rw.proj_enums = proj_types_of(src)
+    rw.proj_own = proj_own_types_of(src)
     rw.boxpin = spec.opts.get("boxpin") == "1"
+    rw.matchrw = spec.opts.get("matchrw", "")
     try:
         t = rw.common()
     except Unsupported as e:
@@ -1114,8 +1173,20 @@ def emit_fn(u: Unit, fpath, impl_pat, name, spec: FnSpec, reach: bool, mutate):
 def proj_types_of(src) -> dict:
     """`#[pin_project(project = XProj)] enum X` in the file -> {XProj: X} (used by R6e)"""
     res = {}
-    for mm in re.finditer(r"#\[pin_project\(\s*project\s*=\s*([A-Za-z_][A-Za-z0-9_]*)[^\]]*\)\]\s*(?:pub(?:\([^)]*\))?\s+)?(?:enum|struct)\s+([A-Za-z_][A-Za-z0-9_]*)", src.src):
+    for mm in re.finditer(r"#\[(?:pin_project::)?pin_project\(\s*project\s*=\s*([A-Za-z_][A-Za-z0-9_]*)[^\]]*\)\]\s*(?:pub(?:\([^)]*\))?\s+)?(?:enum|struct)\s+([A-Za-z_][A-Za-z0-9_]*)", src.src):
         res[mm.group(1)] = mm.group(2)
+    return res
+
+
+def proj_own_types_of(src) -> dict:
+    """`#[pin_project(.., project_replace = XOwn)] enum X { V { #[pin] f: F, g: G } }` in the file
+    -> {XOwn: (X, [names of the #[pin] fields])} (used by R6r)"""
+    res = {}
+    for mm in re.finditer(r"#\[(?:pin_project::)?pin_project\([^\]]*\bproject_replace\s*=\s*([A-Za-z_][A-Za-z0-9_]*)[^\]]*\)\]\s*(?:pub(?:\([^)]*\))?\s+)?(?:enum|struct)\s+([A-Za-z_][A-Za-z0-9_]*)", src.src):
+        bo = src.src.find("{", mm.end())
+        bc = match_close(mask(src.src), bo) if bo >= 0 else -1
+        body = src.src[bo:bc] if bc > bo else ""
+        res[mm.group(1)] = (mm.group(2), re.findall(r"#\[pin\]\s*(?:pub(?:\([^)]*\))?\s+)?([A-Za-z_][A-Za-z0-9_]*)\s*:", body))
     return res
 
 
